@@ -174,8 +174,13 @@ def gen_leaf(rng, ids, p_broken=0.0):
             q = rng.random()
             sel.append(rng.randrange(0, g + 1) if q < 0.85 else rng.choice([-1, g + 1, g + 5, 99]))
         kind = "hN:" + ",".join(str(x) for x in sel)
-    elif r < 0.7:
+    elif r < 0.66:
         kind = "rh"
+    elif r < 0.74:
+        k = rng.randrange(1, 4)
+        kind = "t:" + ",".join("%d.%s" % (rng.randrange(0, g + 1), rng.choice(PTYPES) if j < 2 else rng.choice("si")) for j in range(k))
+        if rng.random() < 0.3:
+            meth = hx(rng.choice(METHOD_FILTERS))
     else:
         kind = "g"
         if rng.random() < 0.5:
@@ -186,7 +191,10 @@ def gen_leaf(rng, ids, p_broken=0.0):
         if rng.random() < 0.6:
             meth = hx(rng.choice(METHOD_FILTERS))
         icase = rng.random() < 0.2
-    return ["L", str(ids.next()), retok(pat_text(segs), icase), meth, kind], segs
+    tokw = retok(pat_text(segs), icase)
+    if (kind == "g" or kind.startswith("g:") or kind.startswith("t")) and rng.random() < 0.15:
+        tokw = ("v" if icase else "u") + tokw[1:]      # booster::regex::utf8
+    return ["L", str(ids.next()), tokw, meth, kind], segs
 
 
 MOUNTS = [  # (regex, select, embed(inner) -> url, inner is what the child sees)
@@ -210,7 +218,7 @@ def gen_tree(rng, depth, ids, p_broken=0.0, nmax=6):
         if depth > 1 and rng.random() < 0.35:
             rx, sel, embed, quirk = rng.choice(MOUNTS)
             cw, cs = gen_tree(rng, depth - 1, ids, p_broken, nmax)
-            items += ["C", retok(rx), str(sel), "_", "-"] + cw
+            items += [rng.choice(["C", "CA"]), retok(rx), str(sel), "_", "-"] + cw
             samplers.append(lambda rng, cs=cs, embed=embed: embed(cs(rng)))
         else:
             w, segs = gen_leaf(rng, ids, p_broken)
@@ -240,6 +248,55 @@ def gen_D(rng, n, out):
             url = gen_url(rng, sampler)
             meth = "_" if rng.random() < 0.12 else hx(rng.choice(METHODS))
             out.append("D %s %s | %s |" % (meth, hx(url), " ".join(tw)))
+
+
+NUM_EDGE = ["0", "7", "42", "007", "-0", "+5", "-5", "2147483647", "2147483648", "-2147483648", "-2147483649", "4294967295", "4294967296",
+            "-4294967295", "-4294967296", "-1", "9223372036854775807", "9223372036854775808", "-9223372036854775808", "-9223372036854775809",
+            "18446744073709551615", "18446744073709551616", "-18446744073709551615", "-18446744073709551616", "99999999999999999999999999",
+            "00000000000000000000000000000000000012", "", " 1", "1 ", "\t1", "\n1", "1\n", " \t 12", "1a", "a", "a1", "--1", "+-1", "-+1", "+", "-", "- 1",
+            "1,000", "1.5", "1e3", "0x10", "\xef\xbc\x91", "\xd9\xa1\xd9\xa2", "\xff", "1\xff", "1\x00", "\x00", "12\x0b", "\x0c3", "1\r"]
+PTYPES = "siulq"
+
+
+def gen_D_typed(rng, n, out):
+    """url_dispatcher::map() handlers with typed parameters: several handlers share (or overlap in) their pattern and differ in the
+    parameter types, so that which one runs depends on whether the captured text converts (range, sign, white space, digits, encoding)"""
+    for _ in range(n):
+        ids = Counter()
+        items = []
+        two = rng.random() < 0.4
+        for _ in range(rng.randrange(2, 6)):
+            r = rng.random()
+            flag = rng.choice(["r", "r", "r", "i", "u", "v"])
+            if two:
+                rx = rng.choice([r"/p/([^/]*)/(.*)", r"/p/(.*)/([^/]*)", r"/p/(.*?)/(.*)", r"/P/([^/]*)/(\d*)"])
+                ng = 2
+            else:
+                rx = rng.choice([r"/p/(.*)", r"/p/([-+]?\d+)", r"/p/(\d*)", r"/p/\s*(-?\d+)\s*", r"/p/(.+)", r"/p/(\S*)", r"/P/(.*)"])
+                ng = 1
+            if r < 0.75:
+                k = rng.randrange(0, min(3, ng + 1) + 1) if rng.random() < 0.2 else rng.randrange(1, min(3, ng + 1) + 1)
+                if k == 0:
+                    kind = "t"
+                else:
+                    ps = []
+                    for j in range(k):
+                        g = rng.randrange(1, ng + 1) if rng.random() < 0.85 else rng.choice([0, ng + 1, -1, 7])
+                        t = rng.choice(PTYPES) if j < 2 else rng.choice("si")
+                        ps.append("%d.%s" % (g, t))
+                    kind = "t:" + ",".join(ps)
+                meth = hx(rng.choice(["GET", "(GET|POST)", "POST", "P.*"])) if rng.random() < 0.3 else "_"
+            elif r < 0.9:
+                kind, meth, flag = rng.choice(["rh", "hN:1", "h0"]), "_", "r"
+            else:
+                kind, meth = "g", "_"
+            items += ["L", str(ids.next()), flag + hx(rx), meth, kind]
+        for _ in range(5):
+            a = rng.choice(NUM_EDGE) if rng.random() < 0.8 else str(rng.randrange(-2 ** 65, 2 ** 65))
+            b = rng.choice(NUM_EDGE) if rng.random() < 0.7 else rng.choice(["x", "caf\xc3\xa9", "\xc3", "a b"])
+            url = ("/p/" if rng.random() < 0.9 else "/P/") + a + (("/" + b) if two else "")
+            meth = "_" if rng.random() < 0.07 else hx(rng.choice(["GET", "POST", "PUT"]))
+            out.append("D %s %s | { %s } |" % (meth, hx(url), " ".join(items)))
 
 
 def gen_D_decline(rng, n, out):
@@ -290,6 +347,10 @@ def gen_mp(rng):
     grp = rng.choice((0, 0, 1, 1, 2, 3, -1))
     sel = "1" if rng.random() < 0.7 else "0"
     w = [retok(h[0], icase) if h else "_", retok(s[0]) if s else "_", retok(p[0]) if p else "_", str(grp), sel]
+    if rng.random() < 0.12:      # booster::regex::utf8 on one of the patterns
+        j = rng.randrange(3)
+        if w[j] != "_":
+            w[j] = {"r": "u", "i": "v"}[w[j][0]] + w[j][1:]
 
     def sample(rng):
         return (rng.choice(h[1]) if h else rng.choice(["h", "x"]), rng.choice(s[1]) if s else rng.choice(["/s", ""]),
@@ -395,7 +456,7 @@ def gen_mtree(rng, depth, names):
             tpl = rng.choice(["/%s{1}", "/%s/{1}", "{1}", "/{lang}/%s{1}", "/%s{1}/{1}", "/%s{1}{k}"])
             tpl = tpl % name if "%s" in tpl else tpl
             cw, ce = gen_mtree(rng, depth - 1, names)
-            items += ["C", "_", "0", hx(name), hx(tpl)] + cw
+            items += [rng.choice(["C", "CA"]), "_", "0", hx(name), hx(tpl)] + cw
             for pos, key, ar in ce:
                 entries.append(([nk] + pos, key, ar))
             kids.append(name)
@@ -498,7 +559,7 @@ def gen_site(rng, depth, ids, keyn, chain=()):
                     items += ["L", str(obs), retok(rxp), "_", "g:-1:-"]
             link = dict(name=name, tpl=tpl, obs=obs, sel=sel)
             cw, ce = gen_site(rng, depth - 1, ids, keyn, tuple(chain) + (link,))
-            items += ["C", retok(rxp), str(sel), hx(name), hx(tpl)] + cw
+            items += [rng.choice(["C", "CA"]), retok(rxp), str(sel), hx(name), hx(tpl)] + cw
             for e in ce:
                 e["pos"] = [nk] + e["pos"]
                 entries.append(e)
@@ -607,7 +668,7 @@ def names_on_path(tw, pos):
                 i += 5
             elif w == "U":
                 i += 3
-            elif w == "C":
+            elif w in ("C", "CA"):
                 if k == idx:
                     names.append(bytes.fromhex(tw[i + 3]).decode("latin-1") if tw[i + 3] != "-" else "")
                     i += 6  # into the child: skip "C re sel name tpl {"
@@ -636,6 +697,7 @@ def gen_cases(c, scale):
     expect = {}
     gen_D(rng, 260 * scale, out)
     gen_D_decline(rng, 40 * scale, out)
+    gen_D_typed(rng, 60 * scale, out)
     gen_MP(rng, 150 * scale, out)
     gen_P(rng, 60 * scale, out)
     gen_T(rng, 400 * scale, out)
